@@ -14,9 +14,27 @@
  *   -DVC_OP / -DVC_MODE  spec operator / 0 no mask, 1 unified (mask alpha), 2 component alpha
  *   -DVC_CH=0..3    channel (0=B 1=G 2=R 3=A; must be present in VC_DFMT) | 4 frame: every destination pixel outside
  *                   [dest_x, dest_x + VC_W) incl. the guard pixels, the whole source and mask rows unchanged
+ *                   | 5 (SRC operator only: no arithmetic) all fields at once: defined bits of the destination pixel ==
+ *                   NARROW_PIX (WIDEN_PIX (source pixel))
  *   -DVC_W          width (default 3)
+ *   -DVC_SX -DVC_MX -DVC_DX   fix the three x offsets for this query (default: symbolic, src/mask in [0,2], dest in [1,2])
  *   -DVC_XBASE      added to the symbolic x offsets in [0,2] of 1-bpp images (to cross a 32-bit word: 30)
+ *   -DVC_OWN_MEMCPY (fast_composite_src_memcpy) memcpy is the byte loop below instead of CBMC 6.11's library model, which
+ *                   drops the last word of a 12-byte copy between word arrays at symbolic offsets (false alarm, natively
+ *                   not reproducible); natively the real memcpy runs
+ *
+ * pixman_fill (reached by fast_composite_solid_fill only) is replaced by a per-pixel store of the filler's low bpp bits
+ * into row 0 (pixman_fill and its implementations: C19).
  */
+#if defined (VH_CBMC) && defined (VC_OWN_MEMCPY)
+#include <stddef.h>
+void *memcpy (void *dst, const void *src, size_t n)
+{
+    size_t i;
+    for (i = 0; i < n; i++) ((unsigned char *) dst)[i] = ((const unsigned char *) src)[i];
+    return dst;
+}
+#endif
 #include "pixman-fast-path.c"
 #include "spec_op.h"
 #include "spec_format.h"
@@ -35,6 +53,24 @@ static uint32_t vc_solid;
 uint32_t _pixman_image_get_solid (pixman_implementation_t *imp, pixman_image_t *image, pixman_format_code_t format)
 {
     return vc_solid;
+}
+
+/* row 0 of the destination only (height is 1 in this harness) */
+pixman_bool_t pixman_fill (uint32_t *bits, int stride, int bpp, int x, int y, int width, int height, uint32_t filler)
+{
+    int i;
+    for (i = 0; i < width; i++)
+    {
+        if (bpp == 1)
+        {
+            if (filler & 1) bits[(x + i) >> 5] |= 1u << ((x + i) & 31);
+            else bits[(x + i) >> 5] &= ~(1u << ((x + i) & 31));
+        }
+        else if (bpp == 8) ((uint8_t *) bits)[x + i] = (uint8_t) filler;
+        else if (bpp == 16) ((uint16_t *) bits)[x + i] = (uint16_t) filler;
+        else bits[x + i] = filler;
+    }
+    return 1;
 }
 
 /* storage per bpp: element type, number of elements, number of pixel positions, raw pixel k */
@@ -108,7 +144,12 @@ void harness (void)
     VC_IN_ARRAY (vh_u32, in_msk, VC_NEL (VC_MFMT));
     VC_IN_ARRAY (vh_u32, in_dst, VC_NEL (VC_DFMT));
     VH_IN (vh_u32, in_solid);
+#ifdef VC_DX
+    /* x offsets fixed per query (masked routines: the symbolic offsets made the queries run for more than an hour) */
+    const vh_u32 in_sx = VC_SX, in_mx = VC_MX, in_dx = VC_DX;
+#else
     VH_IN (vh_u32, in_sx); VH_IN (vh_u32, in_mx); VH_IN (vh_u32, in_dx);
+#endif
     VH_IN (vh_u32, in_k);
     VC_TYPE (VC_SFMT) sbuf[VC_NEL (VC_SFMT)] VC_ALIGN16;
     VC_TYPE (VC_MFMT) mbuf[VC_NEL (VC_MFMT)] VC_ALIGN16;
@@ -162,9 +203,16 @@ void harness (void)
     d32 = SF_WIDEN_PIX (VC_DFMT, r);
     r = VC_GET (VC_DFMT, dbuf, dx + in_k);
     VH_ASSUME (SPX_PRE (s32, d32));
+#if VC_CH == 5
+#if VC_OP != SPOP_SRC || VC_MODE != 0
+#error "VC_CH=5 is for the unmasked SRC operator"
+#endif
+    VH_CHECK ("pixel.defined_bits_are_narrowed_source", (r & SF_DEFMASK (VC_DFMT)) == SF_NARROW_PIX (VC_DFMT, s32));
+#else
     VH_CHECK ("pixel.channel",
               SF_FIELD (r, VC_OFF, VC_WID) ==
               SF_NARROW (SPX_RESULT (SP_CH (s32, VC_CH), SP_A (s32), SPX_MC (m32, VC_CH), SP_CH (d32, VC_CH), SP_A (d32)), VC_WID));
+#endif
 #endif
     VH_END ();
 }
